@@ -35,6 +35,10 @@ def histories(tier, rng, n):
             yield hist_case(d, True, h, src="exhN")
     for i in range(n):
         ops = gen.random_history(rng, p_node=0.1, p_reject=0.02, p_none=0.0, p_empty=0.0)
+        if i % 31 == 5:
+            ops = gen.shift_times(ops, 2 ** 55 + 3)      # timestamps no float can tell apart
+        elif i % 31 == 9:
+            ops = gen.shift_times(ops, -1000)            # an all-negative time axis
         yield hist_case(rng.choice([0, 1]), True, ops, ids=("int", "str", "mix")[i % 3] if i % 4 == 0 else "int", src="rand")
 
 
